@@ -104,6 +104,10 @@ def cases(tier, seed):
         table = [rows[1], rows[-1]]
         for val, unit in UNIT_OFFSETS:
             yield _emit(kinds, 2, table, [1.0, -0.5], [val, unit])
+        # complex prefactors that are ALMOST real (a hopping amplitude with a Peierls phase of 1e-6 ...): the tiny imaginary parts are data
+        for t in (table, [rows[1], rows[2], rows[-1]][:len(rows)]):
+            for fs in ([1.0 + 2e-6j, -0.5 - 1e-6j, 0.25 + 3e-7j], [1.0 + 2e-9j, -0.5 + 1e-9j, 0.25 - 1e-9j], [complex(1.0, 0.0), complex(-0.5, 0.0), complex(0.25, 0.0)]):
+                yield _emit(kinds, 2, t, fs[:len(t)], 0.0)
     yield from cases_(tier, seed)
 
 
